@@ -11,7 +11,7 @@ ASSUMPTIONS = [
     'recorded genuine defects are excluded by construction and counted (evidence key "excluded"); see known_findings.json',
     'blanks directly after control words, after constructs still looking for a trailing optional argument and inside maths do not count as separators',
 ]
-FLAGS = {'F4_fixed': True}      # switches F*_fixed are turned on here when a recorded defect has been repaired in /repo
+FLAGS = {'F1_fixed': True, 'F2_fixed': True, 'F3_fixed': True, 'F4_fixed': True}      # switches F*_fixed are turned on here when a recorded defect has been repaired in /repo
 OPTS = dict(pack='*', lang='en', defs=docgen.DEFS)
 
 
